@@ -51,7 +51,7 @@ def gen_history(rng, maxops, zones=("C", "sp", "bp")):
 
     def write():
         p = payload()
-        span = rng.choice([24, 48, WINDOW])
+        span = rng.choice([10, 16, 24, 48, WINDOW])
         a = base + rng.randrange(0, span)
         return ("w", rng.choice(zs), a, p)
 
